@@ -280,6 +280,15 @@ class PendingWhile(_PendingLoop[While]):
         self.flow_ctrl_interrupt_used = False
         self.interrupt_node_bodies = []
 
+        if any(isinstance(_node, NamedExpr) for _node in walk(node.test)):
+            # the test is evaluated inside the iterable of a comprehension,
+            # where an assignment expression is not allowed
+            raise RuntimeError(
+                utils.ast_debug_info(node)
+                + "Unable to convert an assignment expression "
+                "in the condition of a 'while' loop"
+            )
+
         self.nsp.loop_stack.append(self)
 
         self.nsp_global.use_itertools = True
@@ -423,10 +432,20 @@ class PendingFor(_PendingLoop[For]):
         )
 
     def get_result(self) -> list[expr]:
+        for_loop_final: list[expr] = []
+        for_loop_iter = expr_transf(self.nsp, self.node.iter)
+        if any(isinstance(_node, NamedExpr) for _node in walk(self.node.iter)):
+            # an assignment expression is not allowed in the iterable
+            # of a comprehension, evaluate the iterable beforehand
+            for_loop_final.append(
+                NamedExpr(target=self.flow_ctrl_wrapped_iter_expr, value=for_loop_iter)
+            )
+            for_loop_iter = self.flow_ctrl_wrapped_iter_expr
+
         # if no break/continue/return used
         # use the simplest list comprehension
         if self.interrupt_cnt == 0 and len(self.node.orelse) == 0:
-            return [
+            for_loop_final.append(
                 ListComp(
                     elt=self.nsp_global.expr_wraper(
                         self._assign_target() + self.converted_body
@@ -434,15 +453,14 @@ class PendingFor(_PendingLoop[For]):
                     generators=[
                         comprehension(
                             target=self.for_item_expr,
-                            iter=expr_transf(self.nsp, self.node.iter),
+                            iter=for_loop_iter,
                             ifs=[],
                             is_async=0,
                         )
                     ],
                 )
-            ]
-
-        for_loop_final: list[expr] = []
+            )
+            return for_loop_final
 
         self.converted_body[0:0] = self._assign_target()
 
@@ -466,21 +484,19 @@ class PendingFor(_PendingLoop[For]):
 
         # we don't need use iter_wrapper
         # if we don't use break
-        if self.break_cnt == 0:
-            for_loop_iter = expr_transf(self.nsp, self.node.iter)
-        else:
+        if self.break_cnt != 0:
             from .presets import iter_wrapper_name
 
             self.nsp_global.use_preset_iter_wrapper = True
-            for_loop_iter = self.flow_ctrl_wrapped_iter_expr
             iter_wrapper_instance = NamedExpr(
                 target=self.flow_ctrl_wrapped_iter_expr,
                 value=Call(
                     func=iter_wrapper_name,
-                    args=[expr_transf(self.nsp, self.node.iter)],
+                    args=[for_loop_iter],
                     keywords=[],
                 ),
             )
+            for_loop_iter = self.flow_ctrl_wrapped_iter_expr
             for_loop_final.append(iter_wrapper_instance)
 
         # "orelse" runs if there's no break
